@@ -31,6 +31,16 @@ type vec struct {
 	Why     string `json:"why"`
 	Hops    int    `json:"hops"`
 	Name    hx.B   `json:"name"`
+	// the specification's allocation bound for this input length (Framing!AllocBound), octets per call
+	Allocmax uint64 `json:"allocmax"`
+	// place "claim" (Gen_Claims): kind of the Go field the lying length covers, the claim, the octets behind it
+	Fk     string `json:"fk"`
+	Claim  int    `json:"claim"`
+	Tail   int    `json:"tail"`
+	Behind int    `json:"behind"`
+	// place "limits": the constants of Framing!AllocBound for the recorder
+	AllocK int `json:"allock"`
+	AllocC int `json:"allocc"`
 }
 
 type event struct {
@@ -43,11 +53,40 @@ type event struct {
 var sum hx.Summary
 
 const (
-	allocK    = 512
-	allocC    = 64 << 10
 	timeLimit = 2 * time.Second
 	hangLimit = 40 * time.Second
 )
+
+// The allocation bound is the specification's (Framing!AllocBound(n) = AllocK*n + AllocC): a vector carries the bound
+// of its input (allocmax, computed by TLC); the recorder gets the two constants from the driver, which read them from
+// the "limits" vector TLC emitted (VERIF_ALLOC=K,C).  There is no bound of the harness's own.
+var (
+	allocK, allocC int    // from VERIF_ALLOC; -1 = not given
+	allocVec       uint64 // bound of the vector being replayed (0 = none)
+	allocTag       string // ":claim:<field kind>" while a lying-length vector is replayed: part of the finding key
+	allocPeak      uint64 // largest alloc*1000/bound seen (how much room the unchanged tree leaves)
+	allocPeakAt    string
+)
+
+func allocBound(n int) uint64 {
+	if allocVec > 0 {
+		return allocVec
+	}
+	if allocK < 0 {
+		hx.Die("no allocation bound: the vector carries no allocmax and VERIF_ALLOC is not set")
+	}
+	return uint64(allocK*n + allocC)
+}
+
+// allocated runs f and returns the octets the process allocated meanwhile (TotalAlloc is a counter: it does not
+// depend on when the collector runs or on how loaded the machine is).
+func allocated(f func()) uint64 {
+	var ms0, ms1 runtime.MemStats
+	runtime.ReadMemStats(&ms0)
+	hx.Catch(f)
+	runtime.ReadMemStats(&ms1)
+	return ms1.TotalAlloc - ms0.TotalAlloc
+}
 
 // guarded runs f on an input of n octets and reports panic, time and allocation.
 func guarded(api string, in []byte, f func()) (ok bool) {
@@ -88,12 +127,34 @@ func guarded(api string, in []byte, f func()) (ok bool) {
 		sum.Note("slow_once_not_reproduced", fmt.Sprintf("%s %v", api, el))
 		return true
 	}
-	if d := ms1.TotalAlloc - ms0.TotalAlloc; d > uint64(allocK*len(in)+allocC) {
-		sum.Mis("decode/alloc:"+api, fmt.Sprintf("%s allocated %d octets for a %d-octet input (bound %d*len+%d)", api, d, len(in), allocK, allocC), map[string]interface{}{"api": api, "bytes": hx.FromBytes(in)})
+	bound := allocBound(len(in))
+	d := ms1.TotalAlloc - ms0.TotalAlloc
+	if d > bound {
+		// the first call of a kind builds tables lazily and another goroutine (event writer, timers) may have allocated
+		// meanwhile: the steady-state cost of THIS call is the smallest of three more runs
+		for i := 0; i < 3 && d > bound; i++ {
+			if x := allocated(f); x < d {
+				d = x
+			}
+		}
+	}
+	if r := d * 1000 / bound; r > allocPeak {
+		allocPeak = r
+		allocPeakAt = fmt.Sprintf("%s: %d octets allocated for %d octets of input", api, d, len(in))
+	}
+	if d > bound {
+		c := map[string]interface{}{"api": api, "bytes": hx.FromBytes(in), "allocated": d, "bound": bound}
+		if curVec != nil {
+			c = map[string]interface{}{"api": api, "vector": curVec, "allocated": d, "bound": bound}
+		}
+		sum.Mis("decode/alloc:"+api+allocTag, fmt.Sprintf("%s allocated %d octets for a %d-octet input (the specification bounds it by %d: memory follows the input, not what the input claims)", api, d, len(in), bound), c)
 		return false
 	}
 	return true
 }
+
+// curVec is the vector being replayed (nil in the recorder): an allocation finding names it so that it can be re-run.
+var curVec *vec
 
 // names lists every domain name found in rr (by struct tag).
 func names(rr dns.RR, out *[]hx.B) {
@@ -219,10 +280,22 @@ func replay(vpath, epath string) {
 	w := hx.NewWriter(epath)
 	defer w.Close()
 	seen := map[string]bool{}
+	nclaim := map[string]int{}
 	hx.ReadNDJSON(vpath, func(i int, v *vec) {
+		if v.Place == "limits" { // the constants of the bound, for the recorder (read by the driver)
+			return
+		}
 		sum.Evaluations++
 		in := v.Bytes.Bytes()
 		seen[string(in)] = true
+		allocVec, allocTag, curVec = v.Allocmax, "", v
+		defer func() { allocVec, allocTag, curVec = 0, "", nil }()
+		if v.Place == "claim" {
+			allocTag = ":claim:" + claimClass(v)
+			nclaim[strings.SplitN(v.Why, ":", 2)[0]]++
+			replayClaim(v, in, w)
+			return
+		}
 		m, err := tryMsg(in, w, 4096)
 		// the name decoder on its own
 		var s string
@@ -270,6 +343,59 @@ func replay(vpath, epath string) {
 	sum.Nontrivial = len(seen)
 	sum.Note("accepted", accepted)
 	sum.Note("rejected", rejected)
+	sum.Note("alloc_peak_permille_of_bound", allocPeak)
+	sum.Note("alloc_peak_at", allocPeakAt)
+	if len(nclaim) > 0 {
+		sum.Note("claims_by_kind", nclaim)
+		sum.Note("claims_refused_as_required", claimRefused)
+		sum.Note("claims_accepted_where_allowed", claimAccepted)
+	}
+}
+
+var claimRefused, claimAccepted int
+
+// claimClass is the parameter class of a lying-length finding: the kind of length field (Claims.tla) and, for the
+// fields sized by an earlier integer field, how the Go API spells the covered octets (hex, b64, b32: each has an
+// unpacker of its own).  The payload kind of an option / SvcParam does not matter to its length field.
+func claimClass(v *vec) string {
+	kind := strings.SplitN(v.Why, ":", 2)[0]
+	if kind == "sized" {
+		return kind + ":" + v.Fk
+	}
+	return kind
+}
+
+// replayClaim: a record whose inner length field (Claims.tla) claims v.Claim octets while v.Tail follow.  The message
+// decoder and the record decoder run under the guards with the specification's bound for THIS input; where the
+// specification says the claim cannot be honoured (verdict reject) both must refuse.  Accepted results go the usual way
+// (post-operations, event for Trace_Framing).
+func replayClaim(v *vec, in []byte, w *hx.Writer) {
+	m, err := tryMsg(in, w, 4096)
+	in = exact(in)
+	var rr dns.RR
+	var rerr error
+	ok := guarded("UnpackRR", in, func() {
+		rr, _, rerr = dns.UnpackRR(in, v.Off)
+		if rerr == nil && rr != nil {
+			_ = rr.String()
+			_ = dns.Len(rr)
+			_ = dns.Copy(rr)
+		}
+	})
+	if v.Verdict == "reject" {
+		if err == nil && m != nil {
+			sum.Mis("decode/accepts-mustreject:claim:"+claimClass(v), fmt.Sprintf("Msg.Unpack accepted a record whose inner length (%s) claims %d octets while %d follow inside its RDATA", v.Why, v.Claim, v.Tail), v)
+		} else if ok && rerr == nil {
+			sum.Mis("decode/rr-accepts-mustreject:claim:"+claimClass(v), fmt.Sprintf("UnpackRR accepted a record whose inner length (%s) claims %d octets while %d follow inside its RDATA", v.Why, v.Claim, v.Tail), v)
+		} else {
+			claimRefused++
+		}
+	} else if err == nil {
+		claimAccepted++
+	}
+	if sum.Evaluations%997 == 0 {
+		sum.Sample(map[string]interface{}{"place": v.Place, "why": v.Why, "claim": v.Claim, "tail": v.Tail, "behind": v.Behind, "len": len(in), "verdict": v.Verdict, "accepted": err == nil, "allocmax": v.Allocmax})
+	}
 }
 
 func main() {
@@ -299,6 +425,12 @@ func main() {
 			hx.Die("%v", err)
 		}
 		used = b
+	}
+	allocK, allocC = -1, -1
+	if e := os.Getenv("VERIF_ALLOC"); e != "" {
+		if n, _ := fmt.Sscanf(e, "%d,%d", &allocK, &allocC); n != 2 || allocK <= 0 || allocC < 0 {
+			hx.Die("VERIF_ALLOC=%q: want K,C", e)
+		}
 	}
 	switch os.Args[1] {
 	case "replay":
